@@ -13,14 +13,19 @@ import DosModel.Model.ShareZq
 namespace Dos.Zq
 variable {q : Nat}
 
-theorem powMod_eq (b e q : Nat) : powMod b e q = b ^ e % q := by
-  induction e using Nat.strong_induction_on with
-  | _ e ih =>
-    rw [powMod]
+theorem powModAux_eq (b q : Nat) : ∀ fuel e, e < 2 ^ fuel → powModAux b q fuel e = b ^ e % q := by
+  intro fuel
+  induction fuel with
+  | zero => intro e he; have : e = 0 := by simpa using he
+            subst this; simp [powModAux]
+  | succ fuel ih =>
+    intro e he
+    unfold powModAux
     by_cases h : e = 0
     · simp [h]
-    · simp only [h, dite_false]
-      have hlt : e / 2 < e := Nat.div_lt_self (Nat.pos_of_ne_zero h) (by decide)
+    · simp only [h, if_false]
+      have hlt : e / 2 < 2 ^ fuel := by
+        rw [Nat.div_lt_iff_lt_mul (by decide)]; rw [pow_succ] at he; exact he
       rw [ih _ hlt]
       have hsq : b ^ (e / 2) % q * (b ^ (e / 2) % q) % q = b ^ (2 * (e / 2)) % q := by
         rw [← Nat.mul_mod, two_mul, pow_add]
@@ -32,6 +37,9 @@ theorem powMod_eq (b e q : Nat) : powMod b e q = b ^ e % q := by
       · have h0 : e % 2 = 0 := by omega
         simp only [h0, Nat.zero_ne_one, if_false]
         conv_rhs => rw [← Nat.div_add_mod e 2, h0, Nat.add_zero]
+
+theorem powMod_eq (b e q : Nat) : powMod b e q = b ^ e % q :=
+  powModAux_eq b q _ e Nat.lt_log2_self
 
 /-- the value of a `Zq` as an element of `ZMod q` -/
 def toZMod (a : Zq q) : ZMod q := (a.val : ZMod q)
